@@ -38,7 +38,8 @@ def render(spec, prologue="", epilogue="", union=None, actions=None, tags=None):
     if spec.get("eof_token"):
         out.append("%token EOF -1\n")        # the documented alias of the end marker (examples/e.y); not a grammar symbol
     for t, num in spec.get("redecl", []):
-        out.append("%%token %s %d\n" % (t, num))   # a later declaration that only adds the number
+        # a later declaration that adds the number (and possibly a tag)
+        out.append("%%token %s%s %d\n" % ("<%s> " % spec["redecl_tag"] if spec.get("redecl_tag") else "", t, num))
     for lit in spec["lits"]:
         if lit in tags:
             out.append("%%token <%s> %s\n" % (tags[lit], lit))
@@ -280,6 +281,9 @@ CORPUS = {
     # a cycle of nullable nonterminal transitions (cycle in `reads`): the members of the component share one
     # Read set; their Follow sets must still be computed separately (finding F20)
     "reads_cycle": "%token T0 T1 T2 T3 T4\n%start S\n%%\nS : T0 N2 T0 | T2 N1 | T3 N0 T1 ;\nN0 : N1 N1 |  ;\nN1 :  | N2 T4 N2 | N0 |  ;\nN2 : T3 N2 N2 | N2 N0 T2 |  ;\n%%\n",
+    # reduce/reduce conflict between two rules of EQUAL precedence and %left: the winner depends on the order
+    # in which the candidates are met (the order must not come from a map)
+    "rr_equal_prec": "%token ID NUM\n%left NAME\n%start prog\n%%\nprog : | prog stmt ;\nstmt : tn ';' | tn vn ';' | vn ';' | vn '=' NUM ';' ;\ntn : ID %prec NAME ;\nvn : ID %prec NAME ;\n%%\n",
     # NQLALR-separating family (Bermudez/Logothetis style)
     "nqlalr": "%token A B C D G\n%start S\n%%\nS : A X C | A Y D | B X D | B Y C | G X G ;\nX : Z ;\nY : Z ;\nZ : ;\n%%\n",
 }
@@ -381,7 +385,8 @@ def x_inputs(spec, rng, max_len=3, n_sent=10, cap=250):
         s = sg.sample(rng)
         if s is None:
             continue
-        for cand in (s, _mutate(s, letters, rng)):
+        # mutations may also insert 'y' / 'x': codes just above the largest token code
+        for cand in (s, _mutate(s, letters + (["y", "x"] if n < 23 else []), rng)):
             if cand not in seen:
                 seen.add(cand)
                 out.append(cand)
@@ -420,6 +425,9 @@ def file_spec(rng, small=False):
             if n not in used:
                 used.add(n)
                 fs["nums"][t] = n
+    # tokens that are declared ONLY by a precedence line (no %token line): untagged, un-numbered ones
+    fs["only_prec"] = [t for t in sp["tokens"] if t not in fs["tags"] and t not in fs["nums"]
+                       and any(t in ss for _, ss in sp["prec"]) and rng.random() < 0.5]
     fs["prologue"] = rng.choice(["package p\nimport \"fmt\"\n", "package p\n// c\nimport \"fmt\"\nvar x = 1 % 2\n", "\n package   q \n"])
     fs["union"] = rng.choice([" val int\n str string\n", "val int; str string", "\n\tval int\n\tstr struct{ a int }\n"])
     fs["epilogue"] = rng.choice(["", "\n", "\nfunc GetToken() {}\n", "func f() { /* %% */ }\n// tail"])
@@ -453,6 +461,8 @@ def file_tokens(fs):
     # a directive word may be followed directly by anything that is not a letter (`%left'+'`, `%token<val>`);
     # render_file/needs_sep keep a separator where the next token starts with a word character
     for t in fs["tokens"]:
+        if t in fs.get("only_prec", []):
+            continue
         add("%token", True)
         if t in fs["tags"]:
             add("<", True); add(fs["tags"][t], True); add(">", True)
@@ -541,6 +551,17 @@ def render_file(fs, rng=None, minimal=False, drop_semi=False, drop_last_section=
                         gap = " "
             out.append(gap)
     return "".join(out) + fs["epilogue"]
+
+
+def blowup_grammar(n):
+    """conflict-free grammar whose LR(0) automaton has about n*2^n states (each state remembers which
+    tokens were seen): s : x1 | … | xn ; xi : Ti | Tj xi (j != i).  Far above the 2000-state limit for
+    n >= 9: yaccgo must stop with its "too many states" diagnostic."""
+    out = "%token " + " ".join("T%d" % i for i in range(1, n + 1)) + "\n%start s\n%%\n"
+    out += "s : " + " | ".join("x%d" % i for i in range(1, n + 1)) + " ;\n"
+    for i in range(1, n + 1):
+        out += "x%d : T%d" % (i, i) + "".join(" | T%d x%d" % (j, i) for j in range(1, n + 1) if j != i) + " ;\n"
+    return out + "%%\n"
 
 
 def keyword_grammar(rng, nwords=48, wlen=5, nletters=6):
